@@ -9,7 +9,17 @@ Measured here:
                   spacing hypothesis of theorem C06_pairing_exact (competing candidate pairs exist; deduplicate must keep the nearer one).
   planted_e2e     THE HYPOTHESIS ITSELF: the real COMA (Program + capture extensions) on generated single-reference data sets in all four
                   output modes; per planted query: exactly one record, in the right file of every mode, on the right reference and strand,
-                  exactly the true pairs, HitEnum nM, and |queryShift| <= 200 for every pair of the captured winning candidate."""
+                  exactly the true pairs, HitEnum nM, and |queryShift| <= 200 for every pair of the captured winning candidate.
+  planted_decoys  the same oracle on references (inside the quantifier) that also hold k = 0..5 DIVERGED DUPLICATES of the planted window
+                  (harness/decoys.py).  With k <= 2 the statement must hold.  With k >= 3 it is FALSE of the code as it is — open finding F13
+                  (known_findings.json): only the peaksCount = 3 best primary peaks are refined; an exact copy that starts in the middle of a
+                  1400-bp bin correlates with height ~0.87-0.93, a diverged duplicate that is better aligned to the bins with up to ~0.99, so
+                  three such duplicates push the true locus out of the seeds and the query is reported on a duplicate.  A violation is
+                  routed to F13 only when an independent recomputation of the primary stage AND the seeds captured from the real run both
+                  show exactly that.  Second open finding F15 (k >= 1): the true locus IS refined and its candidate is perfect, but its
+                  confidence n * (1000 - e), e = distance of the secondary seed peak from the diagonal (0..~125 bp, an artefact of the 100-bp
+                  bins), is lower than that of a duplicate whose seed lies closer to its diagonal; routed only when the captured candidates
+                  show exactly that (PlantedDecoys.outranked).  Everything else stays a violation."""
 import os, json, random
 from ..driver import Stream
 from .. import pipeline as pl, e2e, common
@@ -21,12 +31,25 @@ RULE = ('planted_align: reference of 24-70 labels with gaps >= 2000 bp (gaps of 
         "'-'), ONE seed peak at r_a + eps with eps in {-200, -199.5, -100, -0.5, 0, 0.5, 100, 199.5, 200} or random on the 0.5 grid in [-200, 200], "
         'default parameters. planted_dense: the same with gaps from {400.5, 401, 450, 600, 1000, 1299.5, 1300, 1500, 1700, 1700.5, 2000, 2000+exp}. planted_e2e: single reference of 300-600 labels, spacing 2000 + exponential(7000) (mean 9 kb), 15-45-label interior '
         'windows (>= 4 labels from either end) on either strand, random coordinate offset and trailing length, coordinates on the 0.5 grid and '
-        "arbitrary one-decimal coordinates, the four output modes, default parameters. non-trivial = distinct planted query placed (every one is)")
+        "arbitrary one-decimal coordinates, the four output modes, default parameters. planted_decoys: single reference of ~40-330 labels (spacing 2000 + "
+        "exponential(7400) capped at 25 kb, every spacing >= 2 kb, mean >= 9 kb) = flank of 4-9 labels, the planted 15-45-label window and k = 0..5 diverged "
+        "duplicates of it (one or two labels missing, one extra label, one interval longer/shorter by 0.5-1.5 kb, one label displaced by 1-3 kb; a quarter of "
+        "them inverted) in random order separated by 3-8 unrelated labels, flank of 4-9 labels; 'adversarial' data sets put the duplicates on 1400-bp bin "
+        "borders and the window at the sub-bin phase (of 7) at which most duplicates outscore it, 'natural' ones leave every copy where the drawn spacings "
+        "put it; two queries per data set (the window on either strand, coordinate offsets and trailing lengths); quick: the two committed witnesses + 6 "
+        "data sets in mode best + one other mode, thorough: the witnesses + 40 data sets in the four modes. "
+        "non-trivial = distinct planted query placed (every one is)")
 TRUSTED = ['adapter harness/pipeline.py (builds OpticalMap/Peak/Aligner objects)', 'harness/e2e.py: CMAP writer, independent XMAP parser, capture extensions '
            "registered through COMA's own extension mechanism (the winning candidate = the captured first-pass candidate row with the highest confidence)"]
 ASSUMPTIONS = ['PARTIAL: the numerical seeding (FFT cross-correlation, scipy find_peaks, candidate selection) is not modelled; that a seed within 200 bp '
                'of the true diagonal exists and wins is measured end to end, not proved',
-               'planted_align: coordinates and seeds on the 0.5 grid, so the float arithmetic of the implementation is exact']
+               'planted_align: coordinates and seeds on the 0.5 grid, so the float arithmetic of the implementation is exact',
+               'REFUTED ON REFERENCES WITH DIVERGED DUPLICATES of the planted window (open findings F13: >= 3 duplicates displace the true locus from the '
+               'peaksCount = 3 refined seeds; F15: a perfect true candidate loses on confidence to a duplicate whose secondary seed lies closer to its diagonal; '
+               'coq/props/C06.v C06_top_seeds_refuted, C06_best_candidate_refuted): C06 is measured to hold on references WITHOUT such duplicates '
+               '(planted_e2e, planted_decoys k = 0) and, with k <= 2 duplicates, whenever F15 does not strike',
+               'planted_decoys: the routing of F13/F15 trusts harness/decoys.py (independent recomputation of the primary stage) and the capture extension '
+               '(refined window start + secondaryMargin = the selected primary seed)']
 
 EPS_FIXED = [-200, -199.5, -100, -0.5, 0, 0.5, 100, 199.5, 200]
 
@@ -249,6 +272,22 @@ class PlantedE2E(Stream):
             modes[m] = dict(rc=mo['rc'], stderr=mo['stderr'], files=files)
         return dict(modes=modes, truth=t, ra=o['ref_labels'][t['a']], winner=o['winner'].get(str(qid)))
 
+    @staticmethod
+    def stage_of(out, exp):
+        w = out['winner']; rev = out['truth']['rev']
+        if w is None:
+            return ' [stage: no candidate at all, i.e. no primary seed peak]'
+        near = [s['index'] for s in w['seeds'] if s['rev'] == rev and any(abs(p - out['ra']) <= 200 for p in s['peaks'])]
+        if not near:
+            return ' [stage: no secondary seed peak within 200 bp of the true diagonal %s; seeds (strand-, peaks): %s]' % (
+                out['ra'], [(s['rev'], s['peaks'][:4]) for s in w['seeds']][:3])
+        if w['index'] not in near:
+            return ' [stage: seed %s has a secondary peak within 200 bp of the true diagonal, but the candidate of seed %d (strand %s, confidence %s) won]' % (
+                near, w['index'], '-' if w['rev'] else '+', w['conf'])
+        if [[p[0], p[1]] for s in w['segs'] for p in s['pairs']] != exp:
+            return ' [stage: a seed near the true diagonal exists and its candidate won, but pairing/segmentation/resolution gave other pairs]'
+        return ''
+
     def oracle(self, case, out):
         errs = []
         for m, mo in out['modes'].items():
@@ -265,20 +304,8 @@ class PlantedE2E(Stream):
         tag = 'data set %d/%s: query %s (reference %d, labels %d..%d, strand %s, offset %s, trailing %s)' % (
             case['ds_seed'], case['grid'], qid, t['ref'], a + 1, a + n, '-' if rev else '+', t['off'], t['trail'])
         w = out['winner']
-        # at which stage did it go wrong, if it did
-        stage = ''
-        if w is None:
-            stage = ' [stage: no candidate at all, i.e. no primary seed peak]'
-        else:
-            near = [p for s in w['seeds'] if s['rev'] == rev for p in s['peaks'] if abs(p - out['ra']) <= 200]
-            if not near:
-                stage = ' [stage: no secondary seed peak within 200 bp of the true diagonal %s; seeds (strand-, peaks): %s]' % (
-                    out['ra'], [(s['rev'], s['peaks'][:4]) for s in w['seeds']][:3])
-            elif w['rev'] != rev:
-                stage = ' [stage: a seed near the true diagonal exists but a candidate on the other strand won]'
-            elif [[p[0], p[1]] for s in w['segs'] for p in s['pairs']] != exp:
-                stage = ' [stage: a seed near the true diagonal exists and its candidate won, but pairing/segmentation/resolution gave other pairs]'
-        for m in MODES:
+        stage = self.stage_of(out, exp)           # at which stage did it go wrong, if it did
+        for m in [m for m in MODES if m in out['modes']]:
             fk_exp = EXPECT_FILE[m]
             files = out['modes'][m]['files']
             if fk_exp not in files:
@@ -329,6 +356,277 @@ class PlantedE2E(Stream):
         return repr((case['ds_seed'], case['grid'], case['qid'])) if w and w['segs'] else None
 
 
+# ------------------------------------------------------------------------------------------------ (c) diverged duplicates (finding F13)
+from .. import decoys as dk
+
+F13_MARK = '[SEED-DISPLACED:'
+F14_MARK = '[OUTRANKED-BY-DUPLICATE:'
+# the committed witnesses (known_findings.json; coq/props/C06.v C06_top_seeds_refuted / C06_best_candidate_refuted), positions on a 10-bp grid.
+# F13: 77 labels, the window = labels 6..20 starting in the middle of a 1400-bp bin, three duplicates with ONE label missing each that
+#      start on bin borders (distinct heights 80/81, 78/80, 76/79 against 72/81 for the true lag: no tie anywhere)
+WITNESS = dict(ds_seed=16, n=15, kinds=['del1'] * 3, inverted=[False] * 3, true_slot=0, phases=[700, 0, 0, 0], grid=10, tag='witness-F13 k=3',
+               queries=[dict(rev=False, off=0.0, trail=1.0), dict(rev=True, off=20.0, trail=500.0)])
+# F15: 46 labels, the window = labels 7..21, ONE duplicate with one extra label, every copy where the drawn spacings put it
+WITNESS_F15 = dict(ds_seed=20, n=15, kinds=['ins1'], inverted=[False], true_slot=0, phases=[None, None], grid=10, tag='witness-F15 k=1',
+                   queries=[dict(rev=False, off=0.0, trail=1.0), dict(rev=True, off=20.0, trail=500.0)])
+ADVERSARIAL_PHASES = [700, 525, 875, 350, 1050, 175, 1225]
+
+
+def grid_fn(grid):
+    return (lambda x: float(round(x / 10.0) * 10)) if grid == 10 else dk.g05
+
+
+def decoy_dataset(spec):
+    rng = random.Random(spec['ds_seed'])
+    g = grid_fn(spec['grid'])
+    R = dk.gen_reference(rng, spec['n'], spec['kinds'], spec['inverted'], spec['true_slot'], spec['phases'], grid=g)
+    pos, a, n = R['pos'], R['a'], R['n']
+    qs = []; truth = {}
+    for j, qd in enumerate(spec['queries']):
+        ql = dk.query_of(pos, a, n, qd['rev'], qd['off'], grid=g)
+        qid = 7 + 4 * j
+        qs.append((qid, round(ql[-1] + qd['trail'], 1), ql))
+        truth[str(qid)] = dict(a=a, n=n, rev=qd['rev'], ref=3, off=qd['off'], trail=qd['trail'])
+    return dict(refs=[(3, round(pos[-1] + 5000.0, 1), pos)], queries=qs, truth=truth, R=R)
+
+
+def make_spec(rng, k, adversarial, designated_rev, n_hi=45):
+    """a data-set description, deterministic from the rng.  adversarial: the sub-bin phase of the true window is chosen (among 7 phases) so
+    that, by the independent recomputation, as many duplicates as possible outscore the true locus for the designated strand's query, the
+    duplicates start on bin borders; otherwise every copy lies wherever the drawn spacings put it"""
+    n = rng.randint(15, n_hi)
+    base = dict(ds_seed=rng.randint(1, 10 ** 9), n=n, kinds=[rng.choice(dk.KINDS) for _ in range(k)], inverted=[rng.random() < 0.25 for _ in range(k)],
+                true_slot=rng.randint(0, k), grid=0.5, tag='%s k=%d' % ('adversarial' if adversarial else 'natural', k),
+                queries=[dict(rev=designated_rev, off=dk.g05(rng.choice([0.0, 20.0, 1234.5, rng.uniform(0, 3000000)])), trail=dk.g05(rng.choice([0.0, 1.0, 500.0, rng.uniform(0, 20000)]))),
+                         dict(rev=not designated_rev, off=dk.g05(rng.choice([0.0, 777.5, rng.uniform(0, 50000)])), trail=dk.g05(rng.choice([1.0, 3000.0])))])
+    if not adversarial:
+        return dict(base, phases=[None] * (k + 1))
+    best = None
+    for ph in ADVERSARIAL_PHASES:
+        spec = dict(base, phases=[ph] + [0] * k)
+        try:
+            ds = decoy_dataset(spec)
+        except RuntimeError:
+            continue
+        t = ds['truth']['7']
+        an = dk.analyse(ds['refs'][0][2], ds['queries'][0][2], ds['refs'][0][2][t['a']], t['rev'])
+        key = (an.get('gt', -1), -(an['true']['score'] if an['true'] else 9))
+        if best is None or key > best[0]:
+            best = (key, spec)
+    if best is None:
+        raise RuntimeError('no adversarial data set')
+    return best[1]
+
+
+_DK = {}
+
+
+def decoy_jobs(spec, modes):
+    ds = decoy_dataset(spec)
+    e2e.materialise(ds, 'c06dk_%d_%s' % (spec['ds_seed'], '_'.join(str(p) for p in spec['phases'])))
+    rp, qp = os.path.join(ds['dir'], 'r.cmap'), os.path.join(ds['dir'], 'q.cmap')
+    return ds, [dict(refpath=rp, qpath=qp, args=['-oM', m], cpus=1, capture=(m == 'best')) for m in modes]
+
+
+def decoy_output(spec, modes):
+    key = (json.dumps(spec, sort_keys=True), tuple(modes), common.REPO)
+    if key in _DK:
+        return _DK[key]
+    ds, jobs = decoy_jobs(spec, modes)
+    rs = e2e.run_many(jobs, workers=len(jobs))
+    out = dict(modes={}, truth=ds['truth'], ref_labels=ds['refs'][0][2], queries={str(q[0]): q[2] for q in ds['queries']}, copies=ds['R']['copies'],
+               spacing=[ds['R']['min'], round(ds['R']['mean'], 1), ds['R']['max']])
+    for m, r in zip(modes, rs):
+        files = {}
+        for fk in r.files:
+            try:
+                files[fk] = [dict(q=x['q'], r=x['r'], ori=x['ori'], hit=x['hit'], conf=x['conf'], pairs=[list(p) for p in x['pairs']]) for x in r.records(fk)]
+            except Exception as e:
+                files[fk] = dict(parse_error=type(e).__name__ + ':' + str(e)[:100])
+        out['modes'][m] = dict(rc=r.rc, stderr=r.stderr[-400:] if r.rc else '', files=files)
+    cand = {}; seeds = {}
+    for c in rs[0].capture:                       # modes[0] is 'best', run with the capture extensions
+        if c['t'] == 'row' and c['shift'] == 0:
+            cand.setdefault(c['q'], []).append(c)
+        elif c['t'] == 'corr' and c['shift'] == 0:
+            # the selected primary seed: the refined window starts at (its position - secondaryMargin)
+            seeds.setdefault(c['q'], []).append(dict(r=c['r'], rev=c['rev'], index=c['index'], peaks=c['peaks'],
+                                                     primary=(c['start'] + dk.MARGIN) if 'start' in c else None))
+    win = {}
+    for qid, cs in cand.items():
+        best = sorted(cs, key=lambda c: -c['conf'])[0]
+        win[str(qid)] = dict(r=best['r'], rev=best['rev'], index=best['index'], conf=best['conf'], ncand=len(cs),
+                             segs=[dict(peak=s['peak'], pairs=[[p[1], p[2], p[3]] for p in s['pos'] if p[0] == 'P'],
+                                        unpaired=sum(1 for p in s['pos'] if p[0] != 'P')) for s in best['segs']],
+                             seeds=seeds.get(qid, []))
+    out['winner'] = win
+    out['seeds'] = {str(k): v for k, v in seeds.items()}
+    out['cands'] = {str(k): [dict(r=c['r'], rev=c['rev'], index=c['index'], conf=c['conf'], cigar=c['cigar'],
+                                  pairs=[[p[1], p[2]] for sg in c['segs'] for p in sg['pos'] if p[0] == 'P'],
+                                  shifts=[p[3] for sg in c['segs'] for p in sg['pos'] if p[0] == 'P']) for c in cs] for k, cs in cand.items()}
+    _DK[key] = out
+    return out
+
+
+class PlantedDecoys(PlantedE2E):
+    """one case = one planted query of one generated single-reference data set with k diverged duplicates of the planted window"""
+    name = 'planted_decoys'
+
+    def specs(self, rng, tier):
+        plan = ([(0, True, False), (1, True, True), (2, True, False), (3, True, True), (4, False, False), (5, True, True)] if tier == 'quick' else
+                [(k, adv, bool((k + j) % 2)) for j in range(3) for k in range(6) for adv in (True, False)] + [(3, True, False), (3, True, True), (2, True, True), (2, True, False)])
+        out = [dict(WITNESS), dict(WITNESS_F15)]
+        for j, (k, adv, drev) in enumerate(plan):
+            out.append(make_spec(rng, k, adv, drev, n_hi=(30 if tier == 'quick' else 45)))
+        return out
+
+    def modes_of(self, tier, j):
+        return list(MODES) if tier != 'quick' else ['best', MODES[1 + j % 3]]
+
+    def gen(self, rng, tier):
+        specs = self.specs(rng, tier)
+        plan = [(sp, self.modes_of(tier, j)) for j, sp in enumerate(specs)]
+        jobs = []
+        for sp, modes in plan:
+            jobs.extend(decoy_jobs(sp, modes)[1])
+        e2e.run_many(jobs, workers=8)                     # fills the run cache; impl() then only parses
+        cases = []
+        for sp, modes in plan:
+            for qid in decoy_dataset(sp)['truth']:
+                cases.append(dict(spec=sp, modes=modes, qid=int(qid), k=len(sp['kinds']), ds_seed=sp['ds_seed'], grid=sp['grid']))
+        return cases
+
+    def impl(self, case):
+        o = decoy_output(case['spec'], case['modes'])
+        qid = case['qid']; t = o['truth'][str(qid)]
+        modes = {}
+        for m, mo in o['modes'].items():
+            files = {}
+            for fk, f in mo['files'].items():
+                files[fk] = f if isinstance(f, dict) else [r for r in f if r['q'] == qid]
+            modes[m] = dict(rc=mo['rc'], stderr=mo['stderr'], files=files)
+        ra = o['ref_labels'][t['a']]
+        an = dk.analyse(o['ref_labels'], o['queries'][str(qid)], ra, t['rev'])
+        return dict(modes=modes, truth=t, ra=ra, winner=o['winner'].get(str(qid)), seeds=o['seeds'].get(str(qid), []), recomputed=an,
+                    cands=o['cands'].get(str(qid), []),
+                    copies=o['copies'], spacing=o['spacing'], reference=o['ref_labels'], query=o['queries'][str(qid)])
+
+    # ---- the seeding facts of the case
+    @staticmethod
+    def seed_facts(case, out):
+        """(problems, displaced).  problems: the seeds captured from the real run are not the ones the independent recomputation of the
+        primary stage selects (same strands, positions within one bin, scores at or above the selection border).  displaced: finding F13's
+        signature holds (see known_findings.json)"""
+        an, t, ra = out['recomputed'], out['truth'], out['ra']
+        seeds = out['seeds']
+        probs = []
+        if any(s.get('primary') is None for s in seeds):
+            return ['the capture of the real run does not name the selected primary seeds'], False
+        if len(seeds) != an['nsel']:
+            probs.append('the real run refined %d primary seeds, the recomputation selects %d (of %d peaks)' % (len(seeds), an['nsel'], an['npeaks']))
+        pool = dk.maxima(out['reference'], out['query'])
+        for s in seeds:
+            m = [p for p in pool if p['rev'] == s['rev'] and abs(p['pos'] - s['primary']) <= dk.RES]
+            if not m:
+                probs.append('the real run refined a seed at %.0f (strand %s) where the recomputation has no local maximum above the height border' % (s['primary'], '-' if s['rev'] else '+'))
+            elif an['border'] is not None and max(p['score'] for p in m) < an['border'] - dk.EPS:
+                probs.append('the real run refined the seed at %.0f (score %.4f) although %d peaks score higher (selection border %.4f)' % (
+                    s['primary'], max(p['score'] for p in m), an['nsel'], an['border']))
+        true_seeded = any(s['rev'] == t['rev'] and abs(s['primary'] - ra) <= dk.MPD for s in seeds)
+        tp = an['true']
+        displaced = (case['k'] >= dk.PCOUNT and not probs and tp is not None and an.get('ge', 0) >= dk.PCOUNT and not true_seeded
+                     and not any(s['rev'] == t['rev'] and any(abs(p - ra) <= 200 for p in s['peaks']) for s in seeds))
+        if tp is None:
+            probs.append('the recomputation finds no primary peak within %d bp of the true lag %.1f on the true strand' % (dk.NEAR, ra))
+        elif an.get('gt', 0) < dk.PCOUNT and an.get('ge', 0) < dk.PCOUNT and not true_seeded:
+            probs.append('the true locus (score %.4f, outscored by %d other peaks only) is not among the refined seeds %s' % (
+                tp['score'], an['gt'], [(s['rev'], s['primary']) for s in seeds]))
+        return probs, displaced
+
+    @staticmethod
+    def outranked(case, out):
+        """finding F15's signature (see known_findings.json): the candidate of the true locus is perfect and still loses on confidence to
+        the candidate of a planted duplicate whose pairs lie closer to ITS seed diagonal; returns a description or None"""
+        t, ra = out['truth'], out['ra']
+        exp = true_pairs(t['a'], t['n'], t['rev'])
+        near = [s['index'] for s in out['seeds'] if s['rev'] == t['rev'] and any(abs(p - ra) <= 200 for p in s['peaks'])]
+        mine = [c for c in out['cands'] if c['index'] in near and c['rev'] == t['rev'] and c['pairs'] == exp and c['cigar'] == '%dM' % t['n']
+                and c['shifts'] and max(abs(x) for x in c['shifts']) <= 200 and len(set(c['shifts'])) == 1
+                and abs(c['conf'] - t['n'] * (1000 - abs(c['shifts'][0]))) < 1e-6]
+        if not mine or not out['cands']:
+            return None
+        win = sorted(out['cands'], key=lambda c: -c['conf'])[0]          # stable: the first of equal confidences, as in __getBestAlignment
+        tc = mine[0]
+        if win['index'] in near or not win['pairs'] or not (win['conf'] > tc['conf'] or (win['conf'] == tc['conf'] and win['index'] < tc['index'])):
+            return None
+        sites = [p[0] for p in win['pairs']]
+        dup = [c for c in out['copies'] if c[0] != 'true' and c[1] + 1 <= min(sites) and max(sites) <= c[1] + c[3]]
+        if not dup:
+            return None                          # the winner must lie inside one planted duplicate
+        mean_abs = sum(abs(x) for x in win['shifts']) / len(win['shifts'])
+        if not mean_abs < abs(tc['shifts'][0]):
+            return None                          # ... with its pairs closer to its seed diagonal than the true pairs are to theirs
+        for m, mo in out['modes'].items():       # and that winner is what every mode reports
+            recs = mo['files'].get(EXPECT_FILE[m]) or []
+            if len(recs) != 1 or recs[0]['pairs'] != win['pairs']:
+                return None
+        return ('the candidate of the true locus is perfect (%dM, exactly the true pairs, every pair %.1f bp off the seed diagonal: confidence %.1f = %d * (1000 - %.1f)); '
+                'the winner is the candidate of the duplicate %s at reference labels %d..%d (%d pairs, %s, strand %s, mean distance from its seed diagonal %.1f bp): confidence %.1f'
+                % (t['n'], tc['shifts'][0], tc['conf'], t['n'], abs(tc['shifts'][0]), dup[0][0], min(sites), max(sites), len(sites), win['cigar'],
+                   '-' if win['rev'] else '+', mean_abs, win['conf']))
+
+    def oracle(self, case, out):
+        errs = PlantedE2E.oracle(self, case, out)
+        if any(mo['rc'] != 0 for mo in out['modes'].values()):
+            return errs
+        probs, displaced = self.seed_facts(case, out)
+        if errs and not displaced and not probs and case['k'] >= 1:
+            why = self.outranked(case, out)
+            if why:
+                errs = [e + ' %s %s]' % (F14_MARK, why) for e in errs]
+        if displaced and errs:
+            an = out['recomputed']
+            w = out['winner'] or {}
+            where = [c[0] for c in out['copies'] if w.get('segs') and w['segs'][0]['pairs'] and c[1] < w['segs'][0]['pairs'][0][0] <= c[1] + c[3]]
+            note = ' %s the primary peak of the true locus (height %.4f, score %.4f) is outscored by %d kept primary peaks (>= %d = peaksCount; best: %s); the real run refined the seeds %s, none within %d bp of the true lag %.1f; reported on %s]' % (
+                F13_MARK, an['true']['h'], an['true']['score'], an['ge'], dk.PCOUNT, [(('-' if p['rev'] else '+'), p['pos'], round(p['h'], 4), round(p['score'], 4)) for p in an['peaks'][:4]],
+                [(('-' if s['rev'] else '+'), s['primary']) for s in out['seeds']], dk.MPD, out['ra'], where or 'another place')
+            errs = [e + note for e in errs]
+        return errs[:4] + ['[seeding] data set %d query %d: %s' % (case['ds_seed'], case['qid'], p) for p in probs[:2]]
+
+    def finding(self, case, out, viol):
+        if viol.startswith('[seeding]'):
+            return None
+        probs, displaced = self.seed_facts(case, out)
+        if F13_MARK in viol and case['k'] >= dk.PCOUNT and displaced:
+            return 'F13'
+        if F14_MARK in viol and case['k'] >= 1 and not probs and not displaced and self.outranked(case, out):
+            return 'F15'
+        return None
+
+    def classify(self, case, out):
+        t = out.get('truth')
+        if not t:
+            return ['error']
+        an = out['recomputed']
+        sp = case['spec']
+        k = ['duplicates=%d' % case['k'], sp['tag'].split(' ')[0], 'strand=%s' % ('-' if t['rev'] else '+'), 'n=%s' % ('15-24' if t['n'] < 25 else '25-45')]
+        k += ['duplicate kind %s' % kd for kd in set(sp['kinds'])]
+        if any(sp['inverted']): k.append('with an inverted duplicate')
+        if an['true']:
+            k.append('true locus outscored by %s other primary peaks' % (an['ge'] if an['ge'] < 3 else '>=3'))
+            h = an['true']['h']
+            k.append('height of the true primary peak %s' % ('1' if h == 1 else '>=0.95' if h >= 0.95 else '>=0.90' if h >= 0.9 else '>=0.85' if h >= 0.85 else '<0.85'))
+        ok = not PlantedE2E.oracle(self, case, out)
+        k.append('k=%d: %s' % (case['k'], 'C06 holds' if ok else 'C06 FAILS (F13: true locus not refined)' if self.seed_facts(case, out)[1]
+                               else 'C06 FAILS (F15: perfect true candidate outranked by a duplicate)' if self.outranked(case, out) else 'C06 FAILS'))
+        return k
+
+    def nontrivial(self, case, out):
+        w = out.get('winner')
+        return repr((case['ds_seed'], case['qid'])) if w and w['segs'] else None
+
+
 # the theorems C06_true_lag_yields_seed* are about the executable seeding model (model/Seeding.v): its correspondence with the real seeding
 # chain (harness/seeding.py, shared with C16) is therefore part of this check as well
 from .. import seeding as _sd
@@ -338,4 +636,4 @@ class SeedingChain(_sd.SeedingChain):
     n_quick, n_thorough = 16, 80
 
 
-STREAMS = [PlantedAlign(), PlantedDense(), PlantedE2E(), SeedingChain()]
+STREAMS = [PlantedAlign(), PlantedDense(), PlantedE2E(), PlantedDecoys(), SeedingChain()]
